@@ -158,6 +158,8 @@ pub struct ConnDriver {
     /// first ParseError/closed result seen
     pub first_error: Option<String>,
     pub panicked: bool,
+    /// stop offering the rest of a chunk once a read reported a ParseError
+    pub stop_on_parse_error: bool,
     /// log of protocol ops of this case (for replays)
     pub log: Vec<String>,
 }
@@ -181,6 +183,7 @@ impl ConnDriver {
             held: vec![],
             first_error: None,
             panicked: false,
+            stop_on_parse_error: false,
             log: vec![],
         };
         d.emit(rec, format!("conn new {}", limit), "ok".into());
@@ -284,8 +287,12 @@ impl ConnDriver {
             self.stream.0.borrow_mut().reads.clear();
             let (text, taken) = self.read_once(rec, RAct::Data(rest.clone(), fds), op);
             self.stream.0.borrow_mut().reads.clear();
+            let is_parse_err = text.starts_with("parse(");
             results.push(text);
             first = false;
+            if is_parse_err && self.stop_on_parse_error {
+                break;
+            }
             if self.conn.is_none() || rest.is_empty() {
                 break;
             }
